@@ -480,12 +480,12 @@ def verdict(case, rows, a, e=None, idx=None):
     gv = np.asarray(g)
     w = np.asarray(m.value)
     if m.kind == "elem" and gv.shape == (1,) + w.shape:
-        gv = gv[0]        # a[i, j] legitimately comes back as a 1-element array
+        gv = np.asarray(gv[0])        # a[i, j] legitimately comes back as a 1-element array
     require(R.values_equal(gv, w), "%s: returned values differ from list-of-rows result" % expr,
             got=_plain(gv), got_shape=gv.shape, want=w.tolist(), want_shape=w.shape, **ctx)
     gv2 = np.asarray(g2)
     if m.kind == "elem" and gv2.shape == (1,) + w.shape:
-        gv2 = gv2[0]
+        gv2 = np.asarray(gv2[0])
     require(R.values_equal(gv2, w), "%s: SECOND read with the same index objects differs from list-of-rows result" % expr,
             got=_plain(gv2), want=w.tolist(), **ctx)
     return "equal"
@@ -607,6 +607,114 @@ def run_attrs_multidim(case):
 def run_shape_multidim(case):
     return run_attrs(case, only_shape=True)
 
+
+
+# --------------------------------------------------------------------------
+# reads of an array that is not fresh: it was read before, then a whole row was rebound (possibly to another length),
+# then read again.  The reading code may not remember anything about the earlier layout.
+
+@st.composite
+def case_after_update(draw, **kw):
+    case = draw(case_any(**kw))
+    n = len(case["lengths"])
+    ups = []
+    for _ in range(draw(st.integers(1, 3))):
+        ups.append({"row": draw(st.integers(0, n - 1)), "len": draw(st.integers(1, 8)),
+                    "as": draw(st.sampled_from(["array", "list", "ragged"])), "tag": draw(st.integers(1, 9))})
+    case["updates"] = ups
+    return case
+
+
+def run_after_update(case):
+    rows, a = make(case)
+    e = case["index"]
+    esh = R.ESHAPES[case["eshape"]]
+
+    def read_all():
+        try:
+            a[lib_index(case, a)] if e["t"] != "mask" else None
+        except Exception:
+            pass
+        _ = a.starts, a.lengths, a.shape, a.size
+        for i in range(len(rows)):
+            _ = a[i, 0], a[i, len(rows[i]) - 1]
+    read_all()
+    resized = 0
+    for u in case["updates"]:
+        i = u["row"]
+        ragged = len(set(len(r) for r in rows)) > 1
+        # `a[i] = v` on an array whose rows are all equally long is a numpy block assignment (broadcast / reject);
+        # a single row is resized only while the array is ragged, and never under a mask index (fixed mask shape)
+        L = u["len"] if (ragged and e["t"] != "mask") else len(rows[i])
+        new = (np.arange(L * int(np.prod(esh, dtype=int))).reshape((L,) + tuple(esh)) + 1000 * u["tag"]).astype(rows[i].dtype)
+        if u["as"] == "array":
+            a[i] = new.copy()
+        elif u["as"] == "list":
+            a[i] = new.tolist()
+        else:
+            a[i:i + 1] = ra.RaggedArray([new.copy()])
+        resized += L != len(rows[i])
+        rows = list(rows)
+        rows[i] = new
+        read_all()
+    case2 = dict(case)
+    case2["lengths"] = [len(r) for r in rows]
+    bad = R.diff_against_rows(a, rows)
+    require(not bad, "after rebinding rows the array disagrees with the list of rows", diff=bad, updates=case["updates"],
+            lengths=case["lengths"])
+    st_want = np.concatenate([[0], np.cumsum(case2["lengths"])[:-1]])
+    require(np.array_equal(np.asarray(a.starts), st_want), "starts disagree after rebinding rows", got=a.starts, want=st_want)
+    if e["t"] == "mask":
+        case2["mask_src"] = "arrays"      # the positions drawn for the mask, not a comparison with the (changed) data
+    v = verdict(case2, rows, a)
+    info = info_for(case2, v)
+    return Info(info.nontrivial and resized, list(info.classes) + ["rows_resized=%d" % min(resized, 2)])
+
+
+# --------------------------------------------------------------------------
+# few, very long rows: whether rows are "equally long" is an exact question at any size
+
+@st.composite
+def long_rows_case(draw):
+    L = draw(st.sampled_from([99999, 100000, 100001, 250000, 1000000, 2000003]))
+    ds = draw(st.lists(st.sampled_from([0, 0, 1, -1, 2, -3]), min_size=1, max_size=3))
+    return {"L": L, "ds": ds, "how": draw(st.sampled_from(["arrays", "flat_nd", "flat_pyints"])),
+            "dtype": draw(st.sampled_from(["int8", "int32", "float32"]))}
+
+
+def run_long_rows(case):
+    lens = [case["L"]] + [case["L"] + d for d in case["ds"]]
+    total = sum(lens)
+    flat = (np.arange(total) % 113).astype(case["dtype"])
+    starts = np.concatenate([[0], np.cumsum(lens)[:-1]])
+    rows = [flat[s:s + L] for s, L in zip(starts, lens)]
+    if case["how"] == "arrays":
+        a = ra.RaggedArray([r.copy() for r in rows])
+    elif case["how"] == "flat_nd":
+        a = ra.RaggedArray(flat.copy(), lengths=np.array(lens))
+    else:
+        a = ra.RaggedArray(flat.copy(), lengths=[int(x) for x in lens])
+    second = lens[0] if len(set(lens)) == 1 else None
+    got = tuple(None if x is None else int(x) for x in a.shape)
+    require(got == (len(lens), second), "shape of an array with few very long rows disagrees with the list of rows",
+            got=got, want=(len(lens), second), lengths=lens)
+    require([int(x) for x in a.lengths] == lens and [int(x) for x in a.starts] == [int(x) for x in starts],
+            "lengths / starts of an array with very long rows disagree", lengths=lens)
+    require(a.size == total and a.dtype == flat.dtype, "size / dtype disagree", lengths=lens)
+    for i, L in enumerate(lens):
+        for j in (0, L - 1, -1, -L):
+            e = np.asarray(a[i, j]).ravel()
+            require(e.size == 1 and e[0] == rows[i][j], "element read on a very long row disagrees", i=i, j=j, lengths=lens)
+        for j in (L, -L - 1):
+            try:
+                a[i, j]
+            except Exception:
+                continue
+            raise Violation("a[%d, %d]: index outside the row must raise, but data was returned" % (i, j))
+    sub = a[:, -2:]
+    require(np.array_equal(sub.flatten(), np.concatenate([r[-2:] for r in rows])), "a[:, -2:] on very long rows disagrees",
+            lengths=lens)
+    return Info(second is None, ["long_L=%d" % case["L"], "long_equal=%s" % (second is not None), "how=" + case["how"]])
 
 # ======================================================================================================
 # exhaustive small sub-domains (thorough)
@@ -782,6 +890,8 @@ CLAUSES = [
     # fancy
     Clause("huge_row_count", huge_case(), run_huge, quick=8, thorough=64,
            doc="arrays with 19999..20007 rows (the constructor's input checking is switched off above 20000)"),
+    Clause("long_rows", long_rows_case(), run_long_rows, quick=12, thorough=120,
+           doc="2-4 rows of 10^5..2*10^6 elements whose lengths differ by 0..3: shape, starts, element reads, outside-row raises"),
     Clause("paired_long_rows", case_paired(eshapes=("scalar",), max_rows=4, max_len=150), run_read, quick=300, thorough=3000,
            doc="paired / (row, cols) / (rows, col) reads on rows long enough that flat offsets exceed 127 / 255"),
     Clause("paired", case_paired(**SC), run_read, quick=900, thorough=5400,
@@ -789,6 +899,9 @@ CLAUSES = [
     Clause("mask", case_mask(**SC), run_read, quick=700, thorough=4200, doc="a[ragged bool mask] + ra.where"),
     Clause("mask_none_selected", case_mask(none_selected=True, **SC), run_read, quick=100, thorough=600,
            doc="a[mask] / ra.where with an all-False mask returns an empty selection"),
+    Clause("read_after_update", case_after_update(eshapes=("scalar", "scalar", "vec2"), max_rows=6, max_len=7), run_after_update,
+           quick=800, thorough=8000,
+           doc="every grammar form on an array that was read, had whole rows rebound (also to other lengths), and is read again"),
     # multi-dimensional elements
     Clause("multidim_construct", case_attrs(**MD), run_attrs_multidim, quick=600, thorough=3600,
            doc="construct_attrs for (2,) and (3,2) elements (without shape)"),
